@@ -110,7 +110,7 @@ class PCA(Transformer):
                 random_state=self.random_state,
                 sample_name=self.sample_name,
                 feature_name=self.feature_name,
-                **self.solver_kwargs,
+                solver_kwargs=self.solver_kwargs,
             )
             _, _, self.V = svd.fit_transform(X)
 
